@@ -47,7 +47,9 @@ def gen(seed, tier):
                     if wellbehaved and ref_class(pgn, cfgd) != 'fast':
                         n = min(n, 8)            # a well-behaved application does not push a single-frame PGN through the fast-packet path
                     idev = r.choice([0, ndev - 1, r.randrange(ndev), -1, ndev, ndev + 3]) if r.random() < 0.3 else r.randrange(ndev)
-                    ops.append(msg(r, idev, pgn, n, pri=(r.choice([128, 200, 255, 8, 15]) if r.random() < 0.03 else None)))
+                    # a message that carries the ISO-TP mark but fits one frame of a single-frame PGN leaves as that one frame (seed C01-19)
+                    marked = 1 if (n <= 8 and ref_class(pgn, cfgd) == 'single' and r.random() < 0.15) else 0
+                    ops.append(msg(r, idev, pgn, n, pri=(r.choice([128, 200, 255, 8, 15]) if r.random() < 0.03 else None), tp=marked))
                     if 0 <= idev < ndev or idev < 0:
                         used.setdefault(max(idev, 0), set()).add(pgn)
             decl = [p for p in txl if ref_class(p, cfgd) == 'fast'] + [126996, 126464]
